@@ -865,9 +865,9 @@ type dutyInfo struct {
 }
 
 type sentKey struct {
-	slot          uint64
-	typ, pk, sub  int
-	share         int
+	slot         uint64
+	typ, pk, sub int
+	share        int
 }
 
 type gen struct {
